@@ -2499,7 +2499,11 @@ class RlWriter:
             and self.table_nesting == 1
         ):
             elements.append(CondPageBreak(pdfstyles.MIN_TABLE_SPACE))
-        elements.extend(self.renderCaption(table))
+        # (rendered once: a nested table comes here twice, first for the size calculation
+        # of the outer table, and renderCaption takes the caption out of the tree)
+        if not hasattr(table, "caption_elements"):
+            table.caption_elements = self.renderCaption(table)
+        elements.extend(table.caption_elements)
         rltables.flip_dir(table, rtl=self.rtl)
         rltables.check_spans(table)
         table.num_cols = table.numcols
